@@ -10,7 +10,7 @@ Open Scope Z_scope.
 
 (* the pattern texts the hand-written matchers were written for: a changed regular expression stops the build here *)
 Lemma regex_sources_pinned :
-  atom_re_src = "([1-9][0-9]{0,2})?([A-IK-PR-Zacnopsbt][a-ik-pr-vy]?)(@@|@)?(H[1-4]?)?([+-][1-4+-]?)?(:[0-9]{1,4})?"%string /\
+  atom_re_src = "([1-9][0-9]{0,2})?([A-IK-PR-Zacnopsbt][a-ik-pr-vy]?)(@@|@)?(H[1-4]?)?([+-][1-4+-]?)?(:[0-9]+)?"%string /\
   cx_fragments_src = "f:(?:[0-9]+(?:\.[0-9]+)+)(?:,(?:[0-9]+(?:\.[0-9]+)+))*"%string /\
   cx_radicals_src = "\^[1-7]:[0-9]+(?:,[0-9]+)*"%string.
 Proof. repeat split; reflexivity. Qed.
